@@ -311,7 +311,7 @@ fn codepoint() -> impl Strategy<Value = u32> {
 fn map_strategy() -> impl Strategy<Value = MapCase> {
     // codes are biased towards the ends of the code space and the one-byte / two-byte boundary
     let code = || prop_oneof![6 => any::<u16>(), 2 => 65520u16..=65535, 1 => 0u16..4, 1 => 250u16..262];
-    (proptest::collection::vec((code(), proptest::collection::vec(codepoint(), 1..4)), 0..20), proptest::collection::vec((code(), 2u8..12, proptest::collection::vec(codepoint(), 1..3)), 0..5)).prop_map(|(entries, runs)| MapCase { entries, runs })
+    (proptest::collection::vec((code(), proptest::collection::vec(codepoint(), 1..4)), 0..20), proptest::collection::vec((code(), 2u8..12, proptest::collection::vec(codepoint(), 0..3)), 0..5)).prop_map(|(entries, runs)| MapCase { entries, runs })
 }
 
 /// model map from a MapCase: single entries plus runs of consecutive codes (each with its own text)
@@ -327,12 +327,18 @@ fn model_map(c: &MapCase) -> BTreeMap<u16, String> {
                 break;
             }
             // vary the text per code so that entries are distinguishable
-            let mut t = text_of(cps);
+            let mut t = if cps.is_empty() { String::new() } else { text_of(cps) };
             // even-length runs get consecutive final characters (the increment form applies), odd ones do not
             let step = if len % 2 == 0 { 1 } else { 3 };
             if len % 4 == 0 {
                 // the run's last text ends in byte 0xFF (the increment form may run up to, not past, 0xFF)
                 t.push(char::from_u32(0x100 - *len as u32 + k).unwrap());
+            } else if len % 4 == 2 {
+                // consecutive texts whose last UTF-16 unit passes from ..FF to ..00 inside the run (a writer that uses the
+                // increment form must split there); BMP or, for odd starts, a supplementary plane (low surrogate crosses)
+                let h = 1 + (*start as u32 % 5);
+                let base = if start % 2 == 0 { 0x100 * h } else { 0x10000 + 0x100 * h };
+                t.push(char::from_u32(base - *len as u32 / 2 + k).unwrap());
             } else {
                 t.push(char::from_u32(0x41 + ((k * step) % 50)).unwrap());
             }
@@ -516,4 +522,4 @@ pub fn run(ctx: &Ctx) {
     );
 }
 
-pub const RULE: &str = "cases = (a) composite fonts whose /W array has 0-13 groups over disjoint code ranges in 0..65535 written in any order, in both forms (c [w...] incl. an indirect array, c1 c2 w), with or without /DW; queried at every range boundary +-1, 0, 65535 and random codes; (b) simple fonts with FirstChar 0-255, 0-256 widths and, in 60% of the cases, a /MissingWidth in the font descriptor (the width of every code outside the table); (c) maps u16 -> non-empty strings (BMP, supplementary planes, multi-character, runs of consecutive codes) written by write_cmap and read back; (d) independent conformant CMap texts (boilerplate, codespace ranges, bfchar, both bfrange forms incl. one-code ranges and increment runs ending in byte 0xFF, 1- and 2-byte codes, blocks <= 100); all read through a font object in a file written by the harness; oracle = model map / model widths; non-trivial = >=3 groups not in ascending order, a map with a run of consecutive codes, a text with a bfrange; distinct by array / text";
+pub const RULE: &str = "cases = (a) composite fonts whose /W array has 0-13 groups over disjoint code ranges in 0..65535 written in any order, in both forms (c [w...] incl. an indirect array, c1 c2 w), with or without /DW; queried at every range boundary +-1, 0, 65535 and random codes; (b) simple fonts with FirstChar 0-255, 0-256 widths and, in 60% of the cases, a /MissingWidth in the font descriptor (the width of every code outside the table); (c) maps u16 -> non-empty strings (BMP, supplementary planes, multi-character, runs of consecutive codes whose texts are unrelated, consecutive, consecutive up to a final byte 0xFF, or consecutive across a ..FF/..00 boundary, as one character or after a common prefix) written by write_cmap and read back; (d) independent conformant CMap texts (boilerplate, codespace ranges, bfchar, both bfrange forms incl. one-code ranges and increment runs ending in byte 0xFF, 1- and 2-byte codes, blocks <= 100); all read through a font object in a file written by the harness; oracle = model map / model widths; non-trivial = >=3 groups not in ascending order, a map with a run of consecutive codes, a text with a bfrange; distinct by array / text";
